@@ -29,6 +29,9 @@ CHECKS = {
  'C18': dict(cat='exploration', tech=SYMX + '; symbolic numbers carried through generated text by a format hook',
    text='For each population (plain, multizone, matrix and mixes, names with spaces/punctuation/keywords) every raw component of every light, zone and cell at capture time and at replay time is a symbolic integer 0..65535 and power a choice; the text produced by the real ScriptSnapshot is compiled by the real parser and executed by the real VM, and z3 shows the resulting device state equals the captured state component-wise.',
    note='<=4 lights, matrices <=2x2 quick / 6x5 thorough, <=8 zones; light names from a fixed pool (string-level claim: C16).', ref='4/C18'),
+ 'C19': dict(cat='exploration', tech=SYMX + ' (symbolic control flow); byte-exact stdout comparison',
+   text='Seeded programs of 2..5 print/println/printf statements (values of every kind; anonymous, numbered, named, spec and escaped fields) wrapped in if/else and loops with symbolic conditions and interleaved with device commands run with the production output binding and a recording sys.stdout; on every feasible path the bytes written and their order relative to device commands equal what Python str/str.format produce under the documented rules.',
+   note='Printed values are concrete (text is the observable); the solver only decides control flow. Trailing line break at end of output accepted either way; printf always followed by println in generated programs.', ref='4/C19'),
 }
 PENDING = {
 }
